@@ -358,6 +358,9 @@ fn exercise(g: GameState, mid: GameState, twin: GameState, unwind: bool) -> Valu
     // step is offered right away)
     let mut capture_taken = false;
     let mut extra_steps = 0u32;
+    // a state reached by a capture on step 1-3 of a turn (the turn goes on): it is kept until every
+    // owner of the long history is gone and is then the last thing of the game to be dropped
+    let mut in_turn_after: Option<GameState> = None;
     {
         let mut cur = g.clone();
         'search: for _ in 0..400 {
@@ -372,12 +375,20 @@ fn exercise(g: GameState, mid: GameState, twin: GameState, unwind: bool) -> Valu
                     let _ = after.valid_actions().len();
                     let _ = after.is_terminal();
                     capture_taken = true;
+                    if after.current_step() != 0 {
+                        in_turn_after = Some(after);
+                        break 'search;
+                    }
                     drop(after);
-                    break 'search;
+                    break;
                 }
             }
-            // wander on: prefer steps of non-rabbit pieces, fall back to anything offered
-            let pick = acts.iter().find(|a| matches!(a, Action::Move(s, _) if cur.piece_board().piece_type_at_square(s).map_or(false, |p| p != Piece::Rabbit) && (extra_steps + s.index() as u32) % 3 != 0)).copied().unwrap_or(acts[(extra_steps as usize * 7 + 3) % acts.len()]);
+            // wander on without capturing: prefer steps of non-rabbit pieces, fall back to anything offered
+            let quiet: Vec<Action> = acts.iter().filter(|a| cur.trapped_animal_for_action(a).is_none()).copied().collect();
+            if quiet.is_empty() {
+                break;
+            }
+            let pick = quiet.iter().find(|a| matches!(a, Action::Move(s, _) if cur.piece_board().piece_type_at_square(s).map_or(false, |p| p != Piece::Rabbit) && (extra_steps + s.index() as u32) % 3 != 0)).copied().unwrap_or(quiet[(extra_steps as usize * 7 + 3) % quiet.len()]);
             cur = cur.take_action(&pick);
             extra_steps += 1;
         }
@@ -411,8 +422,22 @@ fn exercise(g: GameState, mid: GameState, twin: GameState, unwind: bool) -> Valu
     } else {
         drop(mid);
     }
+    // every owner of the long history is gone; the state inside the capturing turn goes last
+    let mut in_turn_capture_state_dropped_last = false;
+    if let Some(s) = in_turn_after {
+        let c = s.clone();
+        let _ = (c.valid_actions().len(), c.can_pass(true), c.transposition_hash());
+        if c.valid_actions().contains(&Action::Pass) {
+            let e = c.take_action(&Action::Pass);
+            let _ = e.valid_actions().len();
+            drop(e);
+        }
+        drop(c);
+        drop(s);
+        in_turn_capture_state_dropped_last = true;
+    }
     let after = vmstk_kb();
-    json!({"vmstk_before_kb": before, "vmstk_mid_kb": mid_vm, "vmstk_after_newer_half_kb": after_newer, "vmstk_after_kb": after, "valid_actions": n_actions, "valid_actions_no_rep": n_norep, "terminal": term, "can_pass": cp, "has_move": hm, "printed_len": text_len, "hash": format!("{:#018x}", hash), "eq_mid": eq, "history_len": hl, "history_iter_count": hcount, "history_head": hhead.map(|h| format!("{:#018x}", h)), "tail_len": tail_len, "tail_iter_count": tail_iter_count, "tail_chain_len": tail_chain_len, "iterator_dropped_after": partial_iter, "mid_turn_query_rounds": mid_turn_queries, "pending_push_state_queried": pending_push_queried, "bytes_formatted_by_trace_logger": crate::eng::LOGGED_BYTES.load(std::sync::atomic::Ordering::Relaxed), "mid_state_valid_actions": mid_actions, "mid_state_history_len": mid_hist, "capture_after_long_stretch_taken": capture_taken, "extra_steps_before_capture": extra_steps, "dropped_during_unwinding": unwound, "twin_history_len": twin_hist, "twin_probes": twin_probes, "twin_agreements_of_3_per_probe": twin_agreements, "step_back_states_queried": step_back_states, "twin_continued_to_history_len": twin_later_hist, "step3_queries_on_continued_twin": later_queries, "last_owner_overwritten_with_clone_from_history_len": twin_after_clone_from})
+    json!({"in_turn_capture_state_dropped_last": in_turn_capture_state_dropped_last, "vmstk_before_kb": before, "vmstk_mid_kb": mid_vm, "vmstk_after_newer_half_kb": after_newer, "vmstk_after_kb": after, "valid_actions": n_actions, "valid_actions_no_rep": n_norep, "terminal": term, "can_pass": cp, "has_move": hm, "printed_len": text_len, "hash": format!("{:#018x}", hash), "eq_mid": eq, "history_len": hl, "history_iter_count": hcount, "history_head": hhead.map(|h| format!("{:#018x}", h)), "tail_len": tail_len, "tail_iter_count": tail_iter_count, "tail_chain_len": tail_chain_len, "iterator_dropped_after": partial_iter, "mid_turn_query_rounds": mid_turn_queries, "pending_push_state_queried": pending_push_queried, "bytes_formatted_by_trace_logger": crate::eng::LOGGED_BYTES.load(std::sync::atomic::Ordering::Relaxed), "mid_state_valid_actions": mid_actions, "mid_state_history_len": mid_hist, "capture_after_long_stretch_taken": capture_taken, "extra_steps_before_capture": extra_steps, "dropped_during_unwinding": unwound, "twin_history_len": twin_hist, "twin_probes": twin_probes, "twin_agreements_of_3_per_probe": twin_agreements, "step_back_states_queried": step_back_states, "twin_continued_to_history_len": twin_later_hist, "step3_queries_on_continued_twin": later_queries, "last_owner_overwritten_with_clone_from_history_len": twin_after_clone_from})
 }
 
 /// A state whose history list has `n` entries, built with the public constructors (cheap way to
@@ -469,6 +494,46 @@ fn concurrent_drop(n: u64, k: usize, rounds: u64, stack: usize) -> Result<Value,
     Ok(json!({"turns": n, "history_len": n, "threads": k, "rounds": rounds, "spot_checks": 0}))
 }
 
+/// History lengths around the boundaries of narrow counters (2^8 .. 2^19 and multiples of 2^16, plus a few
+/// entries): a state with such a history is queried, copied, and dropped as the only owner; another one is
+/// overwritten in place. Runs on the child's 2 MiB thread.
+fn boundary_length_drops() -> Result<Value, String> {
+    let mut lens: Vec<u64> = vec![];
+    for p in 8..=19u32 {
+        for r in [0u64, 1, 2, 7, 31, 32] {
+            lens.push((1u64 << p) + r);
+        }
+        lens.push((1u64 << p) - 1);
+    }
+    for k in [3u64, 5, 6] {
+        for r in [0u64, 1, 5, 32] {
+            lens.push(k * 65536 + r);
+        }
+    }
+    let short = synthetic_long_state(3);
+    let mut n_drops = 0u64;
+    let mut len_mismatches = 0u64;
+    for (i, n) in lens.iter().enumerate() {
+        let g = synthetic_long_state(*n);
+        let hl = g.unwrap_play_phase().hash_history().len();
+        if hl as u64 != *n {
+            len_mismatches += 1; // not this property's concern; the drop below still is
+        }
+        let _ = (g.valid_actions().len(), g.is_terminal(), g.can_pass(true));
+        if i % 2 == 0 {
+            let c = g.clone();
+            drop(g);
+            drop(c); // last owner
+        } else {
+            let mut g = g;
+            g.clone_from(&short); // last owner overwritten in place
+            drop(g);
+        }
+        n_drops += 1;
+    }
+    Ok(json!({"turns": 0, "history_len": 0, "longest_boundary_length": lens.iter().max().copied().unwrap_or(0), "boundary_length_drops": n_drops, "reported_len_differs_from_entries_appended": len_mismatches, "lengths": lens, "spot_checks": 0}))
+}
+
 /// Child process entry: `avm child-longgame <turns> <seed> <thread|main|concurrent> <stack_bytes>`
 pub fn child(args: &[String]) -> i32 {
     let turns: u64 = args.first().and_then(|s| s.parse().ok()).unwrap_or(1000);
@@ -490,6 +555,9 @@ pub fn child(args: &[String]) -> i32 {
     let mode_owned = mode.to_string();
     let run = move || -> Result<Value, String> {
         let mode = mode_owned.as_str();
+        if mode == "lengths" {
+            return boundary_length_drops();
+        }
         let (g, mid, twin, mut info) = play_long(turns, seed)?;
         let ex = exercise(g, mid, twin, mode != "main");
         info["exercise"] = ex;
@@ -605,6 +673,7 @@ pub fn c20(cfg: &Cfg) -> i32 {
         for l in vm_l {
             jobs.push((pname.to_string(), bin.clone(), l, cfg.seed, "main"));
         }
+        jobs.push((pname.to_string(), bin.clone(), 0, cfg.seed, "lengths"));
         for (i, s) in seeds.iter().enumerate() {
             jobs.push((pname.to_string(), bin.clone(), 300_000, *s + i as u64, "concurrent"));
             jobs.push((pname.to_string(), bin.clone(), 300_000, *s + i as u64 + 1, "concurrent"));
@@ -654,7 +723,12 @@ pub fn c20(cfg: &Cfg) -> i32 {
             if j["exercise"]["dropped_during_unwinding"].as_bool() == Some(true) {
                 sink.count("runs_with_last_owner_dropped_during_unwinding");
             }
-            if *mode == "thread" {
+            if j["exercise"]["in_turn_capture_state_dropped_last"].as_bool() == Some(true) {
+                sink.count("runs_with_in_turn_capture_state_dropped_last");
+            }
+            if *mode == "lengths" {
+                sink.add("boundary_length_drops", j["boundary_length_drops"].as_u64().unwrap_or(0));
+            } else if *mode == "thread" {
                 sink.count("survival_runs_held");
             } else if *mode == "concurrent" {
                 sink.count("concurrent_drop_runs_held");
@@ -712,7 +786,7 @@ pub fn c20(cfg: &Cfg) -> i32 {
         evaluations_counter: "children_run",
         rule: "W13: child processes play L legal capture-free turns from an open position (steps from valid_actions_no_rep(), repetition legality kept by the harness' exact position set and spot-checked against valid_actions() every 10 000 turns; hash_history().len() must equal L+1), then query (action lists, result, can_pass, has_move, printing, hash, ==, history len/iter/head/tail), clone, take_action + pass, and drop the state while a clone of the state at turn L/2 is still alive, then query mid-turn states at steps 1-3 incl. a pass at step 3 and a state with a pending push (a `log` logger at Trace level that formats every record is installed), then make a capture (the engine starts a fresh history and lets go of the old one inside take_action), then query that older state and discard it - in the thread-mode children while the owning 2 MiB thread unwinds from a deliberate panic (Debug formatting is not exercised: the derived Debug of a linked list is recursive by construction and is not one of the queries the property lists). Observer 1: the whole run on a thread with the default 2 MiB stack must exit 0. Observer 2: on the main thread with an unlimited stack the growth of VmStk over the query/clone/drop block at L = 400 000 must not exceed the growth at L = 1 000 by 128 kB. Observer 3: 2-4 threads that are the only owners of one long history drop it at the same instant (spin barrier): children with 300 000-entry histories on 2 MiB threads must survive, and drop probes must show no growth of the stack span between 500 and 4 000 nodes. Observers 1-2 and the children of 3 run in the monitor profile and in plain release. distinct_nontrivial = distinct (L, seed, profile, observer) child runs that completed.".into(),
         assumptions: vec!["'for all lengths' is restated as L up to 4*10^5 (quick) / 2*10^6 (thorough) (quick: 4*10^5, thorough: 3*10^6) plus no measurable stack growth between L = 10^3 and L = 4*10^5".into(), "a child that dies for another reason (OOM, external signal) makes the run inconclusive".into()],
-        floors: vec![floor("survival_runs_held", 0, 0), floor("vmstk_comparisons", 1, 1), floor("simultaneous_probe_drop_rounds", 500, 5000), floor("concurrent_drop_runs_held", 0, 0), floor("runs_with_capture_after_long_stretch", 4, 8), floor("runs_with_last_owner_dropped_during_unwinding", 2, 4), floor("runs_with_pending_push_state_queried", 4, 8), floor("runs_with_step_back_states_queried", 4, 8), floor("runs_with_step3_query_on_continued_twin", 4, 8), floor("runs_with_second_game_on_same_thread", 4, 8), floor("twin_history_probes_eq_hash_hashset", 20, 40), floor("longest_history_reached", 400_001, 3_000_001)],
+        floors: vec![floor("survival_runs_held", 0, 0), floor("vmstk_comparisons", 1, 1), floor("simultaneous_probe_drop_rounds", 500, 5000), floor("concurrent_drop_runs_held", 0, 0), floor("runs_with_capture_after_long_stretch", 4, 8), floor("runs_with_last_owner_dropped_during_unwinding", 2, 4), floor("runs_with_pending_push_state_queried", 4, 8), floor("runs_with_in_turn_capture_state_dropped_last", 2, 4), floor("boundary_length_drops", 180, 180), floor("runs_with_step_back_states_queried", 4, 8), floor("runs_with_step3_query_on_continued_twin", 4, 8), floor("runs_with_second_game_on_same_thread", 4, 8), floor("twin_history_probes_eq_hash_hashset", 20, 40), floor("longest_history_reached", 400_001, 3_000_001)],
         level: "exploration",
         exhaustive: None,
         extra,
